@@ -32,6 +32,12 @@ def make_scratch(base):
 
 
 def apply_edit(root, m):
+    if m.get("patch"):
+        # a confirmed seeded change (seeded/<id>/patch.diff): applied with git apply outside a repository
+        r = subprocess.run(["git", "apply", "--unsafe-paths", "--directory=" + root, os.path.join(VERIF, m["patch"])], cwd="/", stdout=subprocess.PIPE, stderr=subprocess.STDOUT, text=True)
+        if r.returncode != 0:
+            return "patch does not apply: " + r.stdout[-300:]
+        return None
     for e in m["edits"]:
         p = os.path.join(root, e["file"])
         t = open(p).read()
